@@ -3,6 +3,8 @@ package main
 // registry engine: ViewContexts and State operation sequences on a single goroutine (C15a, C13a).
 
 import (
+	"sync"
+	"sync/atomic"
 	"context"
 	"fmt"
 	"math/rand"
@@ -235,6 +237,51 @@ func runStateHV(cfg *runCfg) error {
 		}
 		cases = append(cases, fmt.Sprintf("(%s, %s)", cList(ops), cList(obs)))
 		rep.sample(ops, 3)
+	}
+	// observers on other goroutines: the (height, view) pair they read never goes back while the only writer moves
+	// through views and heights (the pair is one observable, read under one lock)
+	{
+		st := state.NewState()
+		stop := make(chan struct{})
+		var wg sync.WaitGroup
+		var bad atomic.Value
+		for o := 0; o < 4; o++ {
+			wg.Add(1)
+			go func() {
+				defer wg.Done()
+				var ph, pv uint64
+				for {
+					select {
+					case <-stop:
+						return
+					default:
+					}
+					hv := st.HeightView()
+					h, v := uint64(hv.Height()), uint64(hv.View())
+					if h < ph || (h == ph && v < pv) {
+						bad.Store(fmt.Sprintf("snapshot (%d,%d) was followed by snapshot (%d,%d)", ph, pv, h, v))
+						return
+					}
+					ph, pv = h, v
+				}
+			}()
+		}
+		terms := 30000
+		if cfg.tier == "thorough" {
+			terms = 300000
+		}
+		for h := 1; h <= terms && bad.Load() == nil; h++ {
+			st.SetHeightAndResetView(primitives.BlockHeight(h))
+			for v := 1; v <= 3; v++ {
+				st.SetView(primitives.View(v))
+			}
+		}
+		close(stop)
+		wg.Wait()
+		rep.count("concurrent:observer-stress")
+		if b := bad.Load(); b != nil {
+			rep.finding("C13", "state-hv-decreased", "seen from another goroutine through State.HeightView(): "+b.(string), map[string]interface{}{"writer": "SetHeightAndResetView(h); SetView(1); SetView(2); SetView(3) for h = 1, 2, ...", "observers": 4})
+		}
 	}
 	rep.Evaluations = n
 	rep.DistinctNontr = n
